@@ -251,4 +251,36 @@ theorem c02_entry_eq_single (cfg : Cfg) (tr : Transport) (sub : Nat) (e : Text) 
 theorem c02_non_object_entry (e : Text) (h : e.head? ≠ some 123) : classifyEntry e = .invalid .null := by
   simp [classifyEntry, h]
 
+/-! ### "no response to a batch entry is ever delivered outside that array" -/
+
+/-- full statement of the clause: over WebSocket a batch yields at most one frame -/
+def c02_nothing_outside_statement : Prop :=
+  ∀ (cfg : Cfg) (sub : Nat) (t : Text) (idx : Nat), sniff 128 0 t = some (idx, false) →
+    byteLen t ≤ cfg.maxReq → (wsMessage cfg sub t).frames.length ≤ 1
+
+/-- `[{"jsonrpc":"2.0","id":1,"method":"sub"}]` -/
+def k1Text : Text := [91, 123, 34, 106, 115, 111, 110, 114, 112, 99, 34, 58, 34, 50, 46, 48, 34, 44, 34, 105, 100, 34, 58, 49, 44, 34, 109, 101, 116, 104, 111, 100, 34, 58, 34, 115, 117, 98, 34, 125, 93]
+
+/-- The full statement is FALSE of the current code (known finding
+`ws-batch-contains-subscribe-call`, upstream TODO #1052): the subscribe response is written to the
+connection directly by `accept` and again inside the array. -/
+theorem c02_nothing_outside_statement_false : ¬ c02_nothing_outside_statement := by
+  intro h
+  have := h ⟨100000, 100000, .unlimited⟩ 0 k1Text 0 (by decide) (by decide)
+  revert this
+  decide
+
+/-- **C02.4 (partial)** — proved for batches without subscribe calls (hypothesis `NoSub`): nothing
+is written outside the reply (`direct = []`), so over WebSocket the batch yields at most one frame. -/
+theorem c02_nothing_outside_partial (cfg : Cfg) (sub : Nat) (t : Text) (idx : Nat) (es : List Text)
+    (hs : sniff 128 0 t = some (idx, false)) (hsz : byteLen t ≤ cfg.maxReq)
+    (hen : cfg.batch ≠ .disabled) (he : elements (t.drop idx) = some es)
+    (hlim : ∀ n, cfg.batch = .limit n → es.length ≤ n)
+    (hns : NoSub (es.map classifyEntry)) :
+    (wsMessage cfg sub t).frames.length ≤ 1 := by
+  have hnot : ¬ byteLen t > cfg.maxReq := by omega
+  have hd := (c02_shape cfg .ws sub (t.drop idx) es hen he hlim hns).1
+  simp only [wsMessage, hnot, ↓reduceIte, hs, Bool.false_eq_true, hd, List.nil_append]
+  cases (handleBatch cfg Transport.ws sub (t.drop idx)).reply <;> simp
+
 end Jrpc.Srv
